@@ -462,6 +462,7 @@ func TestCheck(t *testing.T) {
 		"at 13 name positions: question, owner, NS/CNAME/PTR/MX/SOA/SRV/RRSIG/NSEC/SVCB/HTTPS RDATA; lying section counts; valid/empty/truncated/over-long/filled RDATA and lying RDLENGTH for every type of the decoder's switch and 5 unknown types; " +
 		"1K..64K inputs incl. the quadratic long-name x many-pointers shape) interleaved with random mutations of valid dnsmessage-built packets, grammar-drawn messages, mutated typed RDATA and random bytes. " +
 		"Each is decoded in a helper process under an allocation (1 MiB + 16 n^2 bytes) and CPU (5 s) budget; decoded messages are type-checked; inputs decoded within bounds are served to ech.Resolver.Resolve as DoH bodies. " +
+		"A second workload serves DoH answers with unusual HTTP framing (no Content-Length, lengths larger/smaller than the body, 0, 65535, 65536, 16 MiB announced, non-200; thorough: malformed length headers on hijacked connections) to dns.DoH and Resolver.Resolve. " +
 		"distinct = distinct (input class, decode outcome) pairs")
 	r.Assume("runtime/metrics /gc/heap/allocs:bytes and getrusage of the helper process attribute allocation and CPU to the single decode call running in it",
 		"net/http/httptest as DoH server; ech.NewResolver accepts plain http on 127.0.0.1")
@@ -649,6 +650,18 @@ func TestCheck(t *testing.T) {
 		}
 		runBatch(b)
 	})
+	// -- DoH answers with unusual or hostile HTTP framing --
+	{
+		brng := r.Rand("doh-bodies", 0)
+		bodies := [][]byte{{}, rnd(brng, 12), rnd(brng, 700)}
+		for k := 0; k < 4; k++ {
+			bodies = append(bodies, grammar(brng))
+		}
+		for k := 0; k < 7; k++ {
+			bodies = append(bodies, validPacket(brng, true))
+		}
+		dohFraming(r, bodies)
+	}
 	r.Extra("max_alloc_over_budget_ppm", maxFrac.Load())
 	r.Extra("max_cpu_us_one_call", maxCPU.Load())
 	r.Floor("inputs", int64(nInputs)*99/100)
